@@ -63,7 +63,7 @@ def main():
         for wt, key in ((wt_mut, "demo_with_patch"), (wt_clean, "demo_without_patch")):
             dst = os.path.join(wt, pkgdir, "zz_seed_demo_test.go")
             shutil.copy(os.path.join(src, "demo_test.go"), dst)
-            rc, out = sh(["go", "test", "-vet=off", "-count=1", "-run", "Seed|Demo|demo|seed", "./" + pkgdir], cwd=wt, timeout=900)
+            rc, out = sh(["go", "test", "-vet=off", "-count=1", "-run", "Seed|Demo|demo|seed|C[0-9][0-9]", "./" + pkgdir], cwd=wt, timeout=900)
             tail = [l for l in out.strip().splitlines() if l.startswith(("ok", "FAIL", "---", "panic"))][:4]
             res["ran"][key] = {"exit": rc, "summary": tail}
             os.remove(dst)
